@@ -25,6 +25,39 @@ struct Resp {
     classes: Vec<String>,
 }
 
+/// Panic signatures carry the source location: make it independent of where the repository and
+/// the cargo registry / toolchain live (the sensitivity runs build a scratch copy of the repo).
+pub fn normalise_panic_sig(sig: &str) -> String {
+    let Some(rest) = sig.strip_prefix("panic:") else {
+        return sig.to_string();
+    };
+    let rest = if let Some(i) = rest.find("/repo/") {
+        &rest[i + "/repo/".len()..]
+    } else if let Some(i) = rest.find("/registry/src/") {
+        let r = &rest[i + "/registry/src/".len()..];
+        r.split_once('/').map(|(_, x)| x).unwrap_or(r)
+    } else if rest.starts_with("/rustc/") {
+        rest.find("/library/").map(|i| &rest[i + 1..]).unwrap_or(rest)
+    } else {
+        rest
+    };
+    format!("panic:{}", rest)
+}
+
+/// Run an oracle, turning a panic of the code under test into a failure with a normalised signature.
+pub fn guarded_verdict(f: impl FnOnce() -> Verdict) -> Verdict {
+    match vcommon::guarded(f) {
+        Ok(v) => v,
+        Err(fl) => {
+            let mut v = Verdict::new();
+            v.fail(normalise_panic_sig(&fl.sig), fl.detail);
+            v.class("out:panic");
+            v.nontrivial();
+            v
+        }
+    }
+}
+
 /// CPU seconds one case may burn in the child before it is killed (SIGVTALRM) and reported as a hang.
 const CPU_LIMIT_S: i64 = 20;
 
@@ -65,7 +98,7 @@ pub fn child_main(fams: &[Fam]) -> ! {
                 nontrivial: v.nontrivial,
                 classes: v.classes.iter().map(|c| c.to_string()).collect(),
             },
-            Err(f) => Resp { failures: vec![(f.sig, f.detail)], nontrivial: true, classes: vec!["out:panic".into()] },
+            Err(f) => Resp { failures: vec![(normalise_panic_sig(&f.sig), f.detail)], nontrivial: true, classes: vec!["out:panic".into()] },
         };
         let mut out = stdout.lock();
         serde_json::to_writer(&mut out, &resp).unwrap();
@@ -100,7 +133,7 @@ fn spawn() -> Handle {
 
 pub fn run_mut(fam: &Fam, case: &MutCase) -> Verdict {
     if std::env::var("C10_INPROC").is_ok() {
-        return check_mut(fam, case);
+        return guarded_verdict(|| check_mut(fam, case));
     }
     let req = serde_json::to_string(&Req { fam: fam.name.to_string(), case: case.clone() }).unwrap();
     CHILD.with(|slot| {
@@ -136,8 +169,8 @@ pub fn run_mut(fam: &Fam, case: &MutCase) -> Verdict {
                 None => ("abort", format!("exited unexpectedly ({:?})", status)),
             };
             v.fail(
-                format!("{}:{}/{}", law, fam.name, target),
-                format!("the process decoding the mutated stream {} [{}]", what, desc),
+                format!("{}:{}", law, fam.name),
+                format!("the process decoding the mutated stream {} [mutation hit {}: {}]", what, target, desc),
             );
             v.class("out:process-died");
             v.nontrivial();
